@@ -105,27 +105,34 @@ def gen_config(rng, kind="sim", allow_face=True):
     posmode = rng.choice(["uniform", "uniform", "cluster", "dyadic", "mixed"])
     face = allow_face and rng.chance(0.15)
     parts = []
+    seen = set()
     cen = [rng.uniform(-b / 2, b / 2) for b in (bx, by, bz)]
-    for i in range(n):
+    massless_ok = collision == "none"      # two colliding massless hard spheres give NaN velocities (C13's business)
+    while len(parts) < n:
         pm = posmode if posmode != "mixed" else rng.choice(["uniform", "cluster", "dyadic"])
         pos = []
-        for a, b in enumerate((bx, by, bz)):
+        for a, (b, nr) in enumerate(((bx, nx), (by, ny), (bz, nz))):
             if pm == "uniform":
                 v = rng.uniform(-b / 2, b / 2)
             elif pm == "cluster":
                 v = cen[a] + rng.normal() * rs * 10 ** (-rng.uniform(0, 9))
-                v = min(b / 2, max(-b / 2, v))
-                if abs(v) == b / 2:
+                if not abs(v) < b / 2:
                     v = rng.uniform(-b / 2, b / 2)
             else:
                 v = snap(rng, rng.uniform(-b / 2, b / 2), -b / 2, b / 2, rs / 2 ** rng.randint(0, 6))
-                if abs(v) == b / 2 and not face:
-                    v = rng.uniform(-b / 2, b / 2)
-            if face and rng.chance(0.1):
-                v = rng.choice([b / 2, -b / 2, math.nextafter(b / 2, 0.0), math.nextafter(-b / 2, 0.0)])
             pos.append(v)
+        if face and rng.chance(0.15):
+            a = rng.randint(0, 2)
+            b, nr = ((bx, nx), (by, ny), (bz, nz))[a]
+            k = rng.randint(0, nr)
+            pos[a] = rng.choice([b / 2, -b / 2, math.nextafter(b / 2, 0.0), math.nextafter(-b / 2, 0.0), -b / 2 + k * rs, 0.0])
+        if not face and any(axis_misfiled(v, b, rs, nr) for v, (b, nr) in zip(pos, ((bx, nx), (by, ny), (bz, nz)))):
+            continue        # on a root-box face: only in the `face` configurations (known finding F18)
+        if tuple(pos) in seen:
+            continue        # coincident particles are refused by the code (error message); separate generator
+        seen.add(tuple(pos))
         vel = [rng.normal() * vscale * (0.0 if rng.chance(0.1) else 1.0) for _ in range(3)]
-        m = 0.0 if rng.chance(0.1) else rng.loguniform(1e-6, 1.0)
+        m = 0.0 if (massless_ok and rng.chance(0.1)) else rng.loguniform(1e-6, 1.0)
         r = rs * rng.choice([0.0, 0.002, 0.01, 0.03])
         parts.append([d2h(v) for v in pos + vel + [m, r]])
     return dict(rs=d2h(rs), nx=nx, ny=ny, nz=nz, boundary=boundary, gravity=gravity, collision=collision,
@@ -177,13 +184,28 @@ def box_of(cfg):
     return rs, cfg["nx"], cfg["ny"], cfg["nz"]
 
 
-def f18_class(cfg, p):
-    """particle whose root-box index wraps to the opposite side (on / within an ulp of an upper face)"""
-    rs, nx, ny, nz = box_of(cfg)
-    for v, n in ((p["x"], nx), (p["y"], ny), (p["z"], nz)):
-        if n >= 2 and v == v and math.floor((v + rs * n / 2.) / rs) >= n:
+def axis_misfiled(v, b, rs, n, depth=34):
+    """does the cell that the root-box index / octant rule selects for coordinate v fail the code's own
+    containment test `fabs(v-c) > w/2` at some level?  (same float operations as tree.c / particle.c)
+    Only possible for a coordinate on, or within rounding of, a root-box or cell face."""
+    if not v == v:
+        return False
+    i = (math.floor((v + b / 2.) / rs) + n) % n
+    c = -b / 2. + rs * (0.5 + i)
+    w = rs
+    for _ in range(depth):
+        if abs(v - c) > w / 2.:
             return True
+        w = w / 2.
+        c = c + w / 2. * (-1. if v < c else 1.)
     return False
+
+
+def f18_class(cfg, p):
+    """particle filed in a cell that does not contain it (on the upper box face with >1 root boxes: the root-box
+    index wraps to the opposite side; on an interior root-box face when the rounded cell centre leaves a gap)"""
+    rs, nx, ny, nz = box_of(cfg)
+    return any(axis_misfiled(p[a], rs * n, rs, n) for a, n in (("x", nx), ("y", ny), ("z", nz)))
 
 
 def check_tree(cfg, cells, parts, grav):
@@ -258,7 +280,7 @@ def check_tree(cfg, cells, parts, grav):
                 continue
             for a, c in (("x", x), ("y", y), ("z", z)):
                 dlt = abs(Fraction(p[a]) - Fraction(c))
-                eps = Fraction(max(abs(p[a]), abs(c), w)) * Fraction(1, 2 ** 51)
+                eps = Fraction(max(abs(p[a]), abs(c), w, bx, by, bz)) * Fraction(1, 2 ** 50)
                 if dlt > Fraction(w) / 2 + eps:
                     errs.append(("containment", "particle %d (%s=%r) is outside its leaf cell (centre %r, w %r)" % (pt, a, p[a], c, w), [pt]))
                     break
@@ -352,10 +374,10 @@ def evaluate_tree(cfg, sim, out, where, want_model, step):
     out.inc("leaves_checked", len(parts))
     if errs:
         culprits = [q for e in errs for q in e[2]]
-        is18 = bool(culprits) and all(q < len(parts) and f18_class(cfg, parts[q]) for q in culprits) and \
-            all(e[0] in ("missing", "containment", "backpointer", "duplicate", "count", "derefine", "mass", "com", "flagged-in-tree") for e in errs)
-        any18 = any(f18_class(cfg, p) for p in parts)
-        key = F18 if (is18 or (any18 and cfg.get("face"))) else "tree-" + errs[0][0]
+        # F18: every particle the errors point at is one the code itself files in a cell that does not contain it
+        # (or the heap/tree was already damaged by such a particle in this run: cfg["face"] runs only)
+        is18 = bool(culprits) and all(q < len(parts) and f18_class(cfg, parts[q]) for q in culprits)
+        key = F18 if (is18 or (cfg.get("face") and any(f18_class(cfg, p) for p in parts))) else "tree-" + errs[0][0]
         out.viol.append((key, "%s: %s" % (where, errs[0][1]),
                          dict(cfg=cfg, step=step, errors=[e[1] for e in errs[:5]])))
         out.inc("tree_invariant_failures")
@@ -377,10 +399,14 @@ def run_sim(cfg, out, model_budget):
     L = dict(x=rs * nx, y=rs * ny, z=rs * nz)
     sim = make_sim(cfg)
     addmsgs = add_parts(sim, cfg)
-    for i, ms in addmsgs:
-        out.inc("add_messages")
+    if addmsgs:
+        out.inc("configs_rejected_at_add")
+        out.notes["rejected"] = addmsgs[0][1][0][1]
+        return
     tree_on = cfg["gravity"] == "tree" or cfg["collision"] in ("tree", "linetree")
     dt = h2d(cfg["dt"])
+    if cfg.get("face") and any(f18_class(cfg, p) for p in get_parts(sim)):
+        out.notes["f18_seen"] = True
     free_flight = cfg["gravity"] == "none" and cfg["collision"] == "none"
     key = (cfg["boundary"], cfg["gravity"], cfg["collision"], cfg["resolve"], nx, ny, nz, min(len(cfg["parts"]), 50))
     if tree_on and sim.N > 0:
@@ -394,6 +420,8 @@ def run_sim(cfg, out, model_budget):
         ms = messages(sim)
         after = get_parts(sim)
         out.inc("steps")
+        if cfg.get("face") and not out.notes.get("f18_seen") and any(f18_class(cfg, p) for p in after):
+            out.notes["f18_seen"] = True
         for kind, text in ms:
             if kind == "e":
                 out.viol.append(("step-error", "step %d reported: %s" % (step, text), dict(cfg=cfg, step=step)))
@@ -468,24 +496,30 @@ def run_sim(cfg, out, model_budget):
 
 # ----------------------------------------------------------------------------- direct boundary_check cases
 def gen_far(rng, cfg):
-    """positions up to ~20 box lengths outside, some on faces / inside"""
+    """positions up to ~25 box lengths outside, some inside; in `face` configurations also on faces"""
     rs, nx, ny, nz = box_of(cfg)
     rows = []
-    for _ in cfg["parts"]:
+    seen = set()
+    while len(rows) < len(cfg["parts"]):
         row = []
         for b in (rs * nx, rs * ny, rs * nz):
-            mode = rng.randint(0, 9)
+            mode = rng.randint(0, 8)
             if mode <= 3:
                 v = rng.uniform(-b / 2, b / 2)
             elif mode <= 6:
                 v = rng.uniform(-3 * b, 3 * b)
             elif mode == 7:
                 v = rng.uniform(-25 * b, 25 * b)
-            elif mode == 8:
-                v = rng.choice([b / 2, -b / 2, 1.5 * b, -1.5 * b, 2.5 * b, math.nextafter(b / 2, 2 * b), math.nextafter(-b / 2, -2 * b)])
             else:
                 v = rng.normal() * b
             row.append(v)
+        if cfg["face"] and rng.chance(0.3):
+            a = rng.randint(0, 2)
+            b = rs * (nx, ny, nz)[a]
+            row[a] = rng.choice([b / 2, -b / 2, 1.5 * b, -1.5 * b, 2.5 * b, math.nextafter(b / 2, 2 * b), math.nextafter(-b / 2, -2 * b), 0.0, b])
+        if tuple(row) in seen:
+            continue
+        seen.add(tuple(row))
         row += [rng.normal(), rng.normal(), rng.normal()]
         rows.append(row)
     return rows
@@ -504,6 +538,8 @@ def run_boundary(cfg, rows, out, with_tree):
     set_parts(sim, rows)
     _clib.reb_boundary_check(ctypes.byref(sim))
     after = get_parts(sim)
+    if cfg.get("face") and any(f18_class(cfg, p) for p in after):
+        out.notes["f18_seen"] = True
     bnd = cfg["boundary"]
     out.inc("boundary_calls")
     key = (bnd, nx, ny, nz, with_tree)
@@ -610,6 +646,10 @@ def worker(job, path):
     except Exception as e:   # python-level failure inside the worker = infrastructure
         import traceback
         out.notes["exception"] = traceback.format_exc()[-1500:]
+    if job["cfg"].get("face") and out.notes.get("f18_seen"):
+        # once a particle sits in a cell that does not contain it the next update can damage tree and heap
+        # (known finding F18): everything but F17 observed in such a run is attributed to it
+        out.viol = [((k if k == F17 else F18), w, r) for k, w, r in out.viol]
     with open(path, "w") as f:
         json.dump(dict(viol=out.viol, lines=out.lines, counts=out.counts, evals=out.evals, notes=out.notes), f)
 
@@ -619,6 +659,8 @@ def run_fresh(cfg, out):
     sim = make_sim(cfg)
     addmsgs = add_parts(sim, cfg)
     parts = get_parts(sim)
+    if cfg.get("face") and any(f18_class(cfg, p) for p in parts):
+        out.notes["f18_seen"] = True
     coincident = [i for i, ms in addmsgs if any("same coordinates" in t for _, t in ms)]
     other = [(i, ms) for i, ms in addmsgs if not any("same coordinates" in t for _, t in ms)]
     key = ("fresh", cfg["nx"], cfg["ny"], cfg["nz"], cfg["posmode"], min(len(parts), 50))
@@ -736,7 +778,7 @@ def run(c):
         jobs.append(dict(kind="fresh", cfg=cfg))
     for i in range(n_bnd):
         rng = c.rng.fork()
-        cfg = gen_config(rng, "boundary", allow_face=False)
+        cfg = gen_config(rng, "boundary")
         if len(cfg["parts"]) > 100:
             cfg["parts"] = cfg["parts"][:100]
         with_tree = rng.chance(0.5)
@@ -760,8 +802,9 @@ def run(c):
             raise Infra("worker failed: %s" % (res or {}).get("notes", {}).get("exception"))
         if res.get("crash") is not None or res.get("hang"):
             what = "the real code %s on a generated %s case" % ("crashed (signal %s)" % res.get("crash") if res.get("crash") is not None else "did not return within the time limit", job["kind"])
-            face = job["cfg"].get("face")
-            c.violation(F18 if face and any_f18(job["cfg"]) else ("crash" if res.get("crash") is not None else "hang"), what, job)
+            cf = job["cfg"]
+            f18 = cf.get("face") and (job["kind"] == "boundary" or any_f18(cf))
+            c.violation(F18 if f18 else ("crash" if res.get("crash") is not None else "hang"), what, job)
             continue
         for k, v in res["counts"].items():
             totals[k] = totals.get(k, 0) + v
